@@ -366,9 +366,11 @@ package proxy
 
 // Messages on the sender's queue: a response object with distinct, non-nil task objects (A-temporal: a batch
 // never contains the same task object twice) and a non-zero source shard.
-//@ chaninv RoutedMessage v: v.Resp != nil && !(v.SourceShard.ClusterID == 0 && v.SourceShard.ShardID == 0) &&
-//@        (msgsOf(v.Resp) != nil ==> (forall k int :: { msgsOf(v.Resp).ReplicationTasks[k] } 0 <= k && k < len(msgsOf(v.Resp).ReplicationTasks) ==> msgsOf(v.Resp).ReplicationTasks[k] != nil) &&
-//@           (forall a int, c int :: 0 <= a && a < c && c < len(msgsOf(v.Resp).ReplicationTasks) ==> msgsOf(v.Resp).ReplicationTasks[a] != msgsOf(v.Resp).ReplicationTasks[c]))
+//@ pred goodMsg(v RoutedMessage) = v.Resp != nil && !(v.SourceShard.ClusterID == 0 && v.SourceShard.ShardID == 0) &&
+//@        (msgsOf(v.Resp) != nil ==> (forall k int :: { msgsOf(v.Resp).ReplicationTasks[k] } 0 <= k && k < len(msgsOf(v.Resp).ReplicationTasks) ==> msgsOf(v.Resp).ReplicationTasks[k] != nil))
+//@ chaninv RoutedMessage v: goodMsg(v)
+// A-temporal (environment assumption, not an obligation of senders): a batch never holds the same task object twice
+//@ chanassume RoutedMessage v: msgsOf(v.Resp) != nil ==> (forall a int, c int :: 0 <= a && a < c && c < len(msgsOf(v.Resp).ReplicationTasks) ==> msgsOf(v.Resp).ReplicationTasks[a] != msgsOf(v.Resp).ReplicationTasks[c])
 
 //@ contract (*proxyStreamSender).sendReplicationMessages
 //@   props C02 C01
@@ -500,3 +502,94 @@ package proxy
 //@   loop 2 invariant cap(ids) == 0 || newSince(ids) || true
 //@   loop 7 invariant tasksByTargetShard != nil && fresh(tasksByTargetShard) && grouped(r, tasksByTargetShard) && sentByTarget != nil && sentByTarget != tasksByTargetShard
 //@   loop 8 invariant tasksByTargetShard != nil && fresh(tasksByTargetShard) && grouped(r, tasksByTargetShard) && sentByTarget != nil && sentByTarget != tasksByTargetShard
+
+// ---------------------------------------------------------------------------------------------
+// C08 / C09: the shard manager's registries under concurrent incarnations (lock-havoc: whenever a registry lock
+// is acquired the registry may hold anything other incarnations put there).
+// ---------------------------------------------------------------------------------------------
+
+//@ guards shardManagerImpl.mutex: *localShards
+//@ guards shardManagerImpl.remoteSendChannelsMu: *remoteSendChannels
+//@ guards shardManagerImpl.localAckChannelsMu: *localAckChannels
+//@ guards shardManagerImpl.localReceiverCancelFuncsMu: *localReceiverCancelFuncs
+//@ guards shardManagerImpl.activeReceiversMu: *activeReceivers
+//@ guards shardManagerImpl.remoteNodeStatesMu: *remoteNodeStates
+
+//@ extern pure ClusterShardIDtoShortString
+//@   trusted deterministic, injective rendering of the shard id (fmt of two integers)
+//@ extern quiet (*shardManagerImpl).broadcastShardChange
+//@ extern quiet (*memberlist.Memberlist).UpdateNode
+//@ extern quiet (*memberlist.Memberlist).NumMembers
+//@ extern quiet (*shardManagerImpl).startJoinLoop
+//@ extern $sm.onLocalShardChange
+//@   assigns nothing
+//@ extern $sd.manager.onRemoteShardChange
+//@   assigns nothing
+
+// Cleanup removes only its own entries: a channel is unregistered only while it is still the registered one.
+//@ contract (*shardManagerImpl).RemoveRemoteSendChan
+//@   props C08
+//@   requires sm.remoteSendChannels != nil
+//@   deletepre remoteSendChannels: @only_own_channel: $key == shardID && $present && sm.remoteSendChannels[$key] == expectedChan
+//@ contract (*shardManagerImpl).RemoveLocalAckChan
+//@   props C08
+//@   requires sm.localAckChannels != nil
+//@   deletepre localAckChannels: @only_own_channel: $key == shardID && $present && sm.localAckChannels[$key] == expectedChan
+
+// A shard registration is removed only while it still carries the registration time of the caller's incarnation
+// (every delete in the dynamic extent of UnregisterShard).
+//@ contract (*shardManagerImpl).UnregisterShard
+//@   props C08 C09
+//@   requires sm.localShards != nil
+//@   deletepre localShards: @only_own_registration: $present && sm.localShards[$key].Created == expectedRegisteredAt && $key == ClusterShardIDtoShortString(clientShardID)
+
+// C09: a newer remote claim evicts an older local one; an older or equal claim, and every unregister
+// announcement, leave local ownership alone. The eviction names the local registration it read.
+//@ contract (*shardDelegate).NotifyMsg
+//@   props C09
+//@   requires sd.manager != nil ==> sd.manager.localShards != nil
+//@   callpre UnregisterShard: @newer_claim_only: msg.Type == "register" && localShard.Created < msg.Timestamp &&
+//@        $clientShardID == msg.ClientShard && $expectedRegisteredAt == localShard.Created
+
+// C09: an instance that left owns nothing.
+//@ contract (*shardEventDelegate).NotifyLeave
+//@   props C09
+//@   requires node != nil && (sed.manager != nil ==> sed.manager.remoteNodeStates != nil)
+//@   ensures @forgotten: sed.manager != nil ==> !(node.Name in sed.manager.remoteNodeStates)
+
+// C09 / C08: a message for a shard is handed to the local stream if one exists, otherwise to the known remote
+// owner; it is reported delivered exactly when one of the two happened, never both; a send to a channel whose
+// incarnation is gone cannot crash the process (the send sits in a recover scope).
+//@ ghost shardManagerImpl.remoteSends int
+//@ extern (*intraProxyManager).sendReplicationMessages@(*shardManagerImpl).DeliverMessagesToShardOwner(m, ctx, peer, target, source, resp)
+//@   trusted intra-proxy stream send (intra_proxy_router.go): nil iff the message was put on the peer stream
+//@   ensures result == nil ==> sm.remoteSends == old(sm.remoteSends) + 1
+//@   ensures result != nil ==> sm.remoteSends == old(sm.remoteSends)
+//@   assigns sm.remoteSends
+//@ extern (*intraProxyManager).sendAck@(*shardManagerImpl).DeliverAckToShardOwner(m, ctx, peer, client, server, req)
+//@   trusted intra-proxy stream send (intra_proxy_router.go): nil iff the acknowledgement was put on the peer stream
+//@   ensures result == nil ==> sm.remoteSends == old(sm.remoteSends) + 1
+//@   ensures result != nil ==> sm.remoteSends == old(sm.remoteSends)
+//@   assigns sm.remoteSends
+//@ extern quiet (*shardManagerImpl).getShardOwner
+//@ extern quiet (*shardManagerImpl).GetProxyAddress
+//@ extern quiet (*shardManagerImpl).GetNodeName
+//@ extern quiet (*shardManagerImpl).GetIntraProxyManager
+//@ extern (*shardManagerImpl).GetRemoteSendChan(sm, shardID)
+//@   trusted registry read under its lock; the channel may belong to an incarnation that has already closed it
+//@   assigns nothing
+//@ extern (*shardManagerImpl).GetLocalAckChan(sm, shardID)
+//@   assigns nothing
+
+//@ contract (*shardManagerImpl).DeliverMessagesToShardOwner
+//@   props C09 C08
+//@   requires routedMsg != nil && goodMsg(deref(routedMsg))
+//@   ensures @exactly_once_iff_true: result <==> ($sends + (sm.remoteSends - old(sm.remoteSends)) == 1)
+//@   ensures @never_twice: $sends + (sm.remoteSends - old(sm.remoteSends)) <= 1
+//@   callpre sendReplicationMessages: @local_first: $sends == 0
+//@ contract (*shardManagerImpl).DeliverAckToShardOwner
+//@   props C09 C08
+//@   requires routedAck != nil
+//@   ensures @exactly_once_iff_true: result <==> ($sends + (sm.remoteSends - old(sm.remoteSends)) == 1)
+//@   ensures @never_twice: $sends + (sm.remoteSends - old(sm.remoteSends)) <= 1
+//@   callpre sendAck: @local_first: $sends == 0 && allowForward
